@@ -22,7 +22,9 @@ def plan(tier, seed):
         regs += ['c16::Cmp<%s, %s>::reg()' % (a, b), 'c16::Cmp4<%s, %s>::reg()' % (a, b)]
     # component types of their own, unsigned ones included
     for n1, d1, n2, d2 in [(S64, S32, S64, U32), (S64, U32, S64, S32), (S32, S8, S32, U8), (S64, S16, S32, U16), (S32, U16, S64, S8), (S16, S8, S16, U8),
-                           (S64, S64, S64, U32), (U32, S32, S64, S32), (S64, S32, U16, S16), (S8, U8, S16, S8), (S64, U8, S64, S8), (S32, S32, S32, U16)]:
+                           (S64, S64, S64, U32), (U32, S32, S64, S32), (S64, S32, U16, S16), (S8, U8, S16, S8), (S64, U8, S64, S8), (S32, S32, S32, U16),
+                           # one fraction type on both sides, numerator and denominator of different types (hash of equal fractions)
+                           (U8, S8, U8, S8), (S8, U8, S8, U8), (U16, S32, U16, S32), (S32, U16, S32, U16), (S64, S32, S64, S32), (U32, S64, U32, S64), (U8, U8, U8, U8)]:
         regs.append('c16::CmpND<%s, %s, %s, %s>::reg()' % (n1, d1, n2, d2))
     cases = 300000 if quick else 4000000
     enum_max = 2 ** 16 if quick else 2 ** 32
